@@ -50,7 +50,9 @@ func ExtractProperties(conditions map[connor.FilterKey]any) map[int]Property {
 		case *mapper.PropertyIndex:
 			prop := properties[typedKey.Index]
 			prop.Index = typedKey.Index
-			relatedProps := ExtractProperties(v.(map[connor.FilterKey]any))
+			// the value is not a map when the field is given a null (or scalar) filter value
+			subConditions, _ := v.(map[connor.FilterKey]any)
+			relatedProps := ExtractProperties(subConditions)
 			properties[typedKey.Index] = mergeProps(prop, Property{Fields: relatedProps})
 		case *mapper.Operator:
 			if typedKey.Operation == request.FilterOpAnd || typedKey.Operation == request.FilterOpOr {
